@@ -10,7 +10,7 @@ from . import common as C
 from . import c17_drive as D
 
 MODE_COQ = {'idle': 'MIdle', 'forever': 'MForever', 'race': 'MRace', 'own': 'MOwn', 'closed': 'MClosed'}
-FORM_COQ = {'coro': 'FCoro', 'task': 'FTask', 'future': 'FFuture'}
+FORM_COQ = {'coro': 'FCoro', 'task': 'FTask', 'future': 'FFuture', 'donefut': 'FFuture', 'donetask': 'FTask'}
 RES_NUM = {'ok': 0, 'deadlock': 1, 'steps': 2}
 
 TAGS = {1: 'wrong-outcome', 2: 'awaitable-step-off-target-loop', 3: 'two-runners', 4: 'two-locks',
